@@ -55,10 +55,39 @@ type NodeKeyFull struct {
 	Grp int64
 }
 
-// Leaf is an object keyed through Object.Key("id").
+// Leaf is an object keyed through Object.Key("id"). Besides the id it carries
+// an object, a list of objects and a list of lists of objects as plain struct
+// fields: a federated service receives the whole struct as the object's key
+// ("object pass-through") and rebuilds its shadow object from it.
 type Leaf struct {
-	Id int64  `graphql:"id"`
-	W  *World `graphql:"-"`
+	Id    int64  `graphql:"id"`
+	Pos   Pt     `graphql:"pos"`
+	Trail []Pt   `graphql:"trail"`
+	Grid  [][]Pt `graphql:"grid"`
+	W     *World `graphql:"-"`
+}
+
+// Pt is a small unkeyed value object.
+type Pt struct {
+	X int64 `graphql:"x"`
+	Y int64 `graphql:"y"`
+}
+
+// leafShape derives a leaf's struct fields from its id.
+func (w *World) leafShape(l *Leaf) {
+	h := w.H("Leaf", l.Id, "shape", 0)
+	pt := func(k uint) Pt { return Pt{X: int64(h >> k % 7), Y: int64(h >> (k + 3) % 5)} }
+	l.Pos = pt(0)
+	for j := 0; j < int(h>>8%4); j++ {
+		l.Trail = append(l.Trail, pt(10+4*uint(j)))
+	}
+	for j := 0; j < int(h>>28%3); j++ {
+		var ring []Pt
+		for k := 0; k < int(h>>(30+2*uint(j))%3); k++ {
+			ring = append(ring, pt(36+5*uint(j)+2*uint(k)))
+		}
+		l.Grid = append(l.Grid, ring)
+	}
 }
 
 // Item is an unkeyed object that is passed around by value.
@@ -90,6 +119,12 @@ type Thing struct {
 	*Leaf
 }
 
+// Solo is a union with a single member.
+type Solo struct {
+	schemabuilder.Union
+	*Leaf
+}
+
 func NewWorld(seed uint64, n, m int) *World {
 	w := &World{Seed: seed, N: n, M: m}
 	w.nodes = make([]*Node, n+1)
@@ -99,6 +134,7 @@ func NewWorld(seed uint64, n, m int) *World {
 	w.leaves = make([]*Leaf, m+1)
 	for i := 1; i <= m; i++ {
 		w.leaves[i] = &Leaf{Id: int64(i), W: w}
+		w.leafShape(w.leaves[i])
 	}
 	return w
 }
@@ -254,6 +290,13 @@ func NodeLeaves(n *Node, _ NoArgs) []Leaf {
 	return out
 }
 func NodeThing(n *Node, _ NoArgs) *Thing { return n.W.thingFrom(n.W.H("Node", n.Id, "thing", 0)) }
+func NodeSolo(n *Node, _ NoArgs) *Solo {
+	h := n.W.H("Node", n.Id, "solo", 0)
+	if h%4 == 0 {
+		return nil
+	}
+	return &Solo{Leaf: n.W.pickLeaf(h >> 8)}
+}
 func NodeThings(n *Node, _ NoArgs) []*Thing {
 	h := n.W.H("Node", n.Id, "things", 0)
 	k := int(h % 5)
